@@ -181,7 +181,8 @@ Definition ospec_step (s : ost) (e : list Z) : ost :=
   | [7; same] =>
       mkO (o_r0 s) (o_acked s) (o_pend s) (o_lastrec s) (o_maxrec s) 7 0 (o_ok s) (o_back s) 7 (o_pstart s) (o_shut s) (o_ovl s)
   | [8] =>
-      let over := ((o_cause s =? 7) && ((o_pstart s >=? 1) || (o_shut s >=? 1))) || (o_cause s =? 25) in
+      (* with the repair only a second first registration may start a second goroutine *)
+      let over := o_cause s =? 25 in
       let ovl := match o_ovl s with
                  | Some n => Some n
                  | None => if over then Some (length (o_acked s)) else None
@@ -266,9 +267,9 @@ Definition check_reg (ty maxsize : Z) (stl : list Z) (trace : list (list Z)) : v
       after the (re-)registrations, posts = what the endpoint received, in order
       of arrival: [g; updateSeq; sequence numbers…], all answered ok; rcd = the
       stored last push sequence at the end; complete = every goroutine reached L.
-    The scheduler decides how many goroutines start, so the model side is: each
-    goroutine's own posts are the batches [process] makes from some start
-    position >= r0 up to L. *)
+    With the repair exactly one goroutine starts whatever the scheduler does;
+    its posts are the batches [process] makes from a start position >= r0 up to
+    L, and nothing that goes wrong here is excused by a known finding. *)
 Fixpoint posts_of (g : Z) (posts : list (list Z)) : list (Z * list Z) :=
   match posts with
   | [] => []
@@ -310,11 +311,11 @@ Definition check_race (ty maxsize : Z) (stl : list Z) (r0 L rcd spawns complete 
   let c := mkCfg k (maxcnt_of ty) pushMaxSize 1 in
   let acked := flat_map post_seqs posts in
   let m := (maxsize =? pushMaxSize) && (complete =? 1) && forallb (Z.eqb 0) codes &&
-           (1 <=? spawns) && (spawns <=? 3) && (0 <? r0) && (r0 <=? L) &&
+           (spawns =? 1) && (0 <? r0) && (r0 <=? L) &&
            forallb (fun p => (0 <=? post_g p) && (post_g p <? spawns)) posts &&
            tasks_ok c st r0 L posts (Z.to_nat spawns) &&
            (rcd =? (match acked with [] => r0 | _ => L end)) in
   let expected := expected_acked k st (r0 + 1) L in
   let (dv, _) := divergence acked expected O in
   if (dv =? 0) && (rcd =? L) then mk_verdict m true
-  else (m, false, if (dv =? 1) && (2 <=? spawns) then 2%N else 0%N).
+  else (m, false, 0%N).
